@@ -56,13 +56,13 @@ Qed.
 (* ------------------------------------------------------------------ dictionaries *)
 Lemma lookup_in {A} k (l : list (string * A)) v : lookup k l = Some v -> In (k, v) l.
 Proof.
-  induction l as [|[k' v'] t IH]; simpl; [discriminate|].
+  unfold lookup. induction l as [|[k' v'] t IH]; simpl; [discriminate|].
   destruct (String.eqb_spec k k') as [->|]; [intros H; inversion H; auto|auto].
 Qed.
 
 Lemma lookup_none {A} k (l : list (string * A)) : lookup k l = None <-> ~ In k (map fst l).
 Proof.
-  induction l as [|[k' v'] t IH]; simpl; [tauto|].
+  unfold lookup. induction l as [|[k' v'] t IH]; simpl; [tauto|].
   destruct (String.eqb_spec k k') as [->|Hne]; [split; [discriminate|tauto]|].
   rewrite IH. split; [intros H [E|I]; [congruence|tauto]|tauto].
 Qed.
@@ -444,7 +444,7 @@ Proof.
   destruct (routing_ok _ _ _ _ _ E) as [_ [Hc _]].
   destruct (Hc _ _ _ Hin) as [rv [dv [iv [_ [Sr [Sd Si]]]]]].
   destruct H as [[dd [l [-> [L [Hl Hv]]]]]|[[dd [v [-> [L Hv]]]]|[dd [-> L]]]].
-  - unfold restr_spec in Sr. rewrite L in Sr. destruct l as [|e es]; [congruence|].
+  - unfold restr_spec in Sr. unfold rvalue in *. rewrite L in Sr. destruct l as [|e es]; [congruence|].
     destruct Sr as [v [_ [Hm Hf]]]. apply (Hv v). apply validate_index_ok. auto.
   - unfold deform_spec in Sd. rewrite L in Sd. now apply (Hv dv).
   - unfold ign_spec in Si. rewrite L in Si. discriminate.
@@ -466,7 +466,7 @@ Lemma routing_accepts mc r d i :
 Proof.
   intros Hr Hd Hi. unfold parse_options.
   assert (Pr : exists pr, parse_restrictions (complete mc) r = Ok pr).
-  { unfold parse_restrictions. destruct r as [dd|]; [|eauto]. destruct (Hr dd eq_refl) as [K V].
+  { unfold parse_restrictions. destruct r as [dd|]; [|eauto]. destruct (Hr dd eq_refl) as [K V]. unfold rvalue in *.
     rewrite (proj2 (check_keys_ok dd (complete mc)) K); simpl. apply mapM_total.
     intros [n [ns ne]] Hin; simpl. destruct (lookup n dd) as [[[|e es]|]|] eqn:L; eauto.
     destruct (V n ns ne (e :: es) Hin L ltac:(discriminate)) as [v Hv]. rewrite Hv; simpl; eauto. }
